@@ -1483,6 +1483,36 @@ func (s *session) probeBlock(gen func(b *blockGen)) {
 		return
 	}
 	z := new(big.Int)
+	// If the block state holds a transaction the signature verifier refuses, finish the block as a producer
+	// would (rewards, roots of what was really executed) and hand it to the validator: every root in the header
+	// is right, only the signature verdict can refuse it - it must, and nothing may be committed.
+	inadmissible := 0
+	for _, x := range bg.p.specs {
+		if !x.admissible {
+			inadmissible++
+		}
+	}
+	if inadmissible > 0 {
+		if err := chain.SendBlockReward(bs, nil); err != nil {
+			panic(err)
+		}
+		if err := bs.Update(); err != nil {
+			panic(err)
+		}
+		blk := types.NewBlock(bi, bs.GetRoot(), bs.Receipts(), bg.p.txs, nil, bs.Consensus())
+		s.reloadGlobals()
+		_, err := chain.VerifC01ExecBlock(s.node, blk, false)
+		s.run.Count("probe-block-through-validator")
+		if err == nil {
+			s.fail("C03", "a block carrying a transaction the signature verifier refuses was executed and committed", "", fmt.Sprintf("block %d, %d such transactions", bi.No, inadmissible))
+			s.aborted = true
+			return
+		}
+		if err != chain.ErrorBlockVerifySign {
+			s.run.Count("probe-block-refused-otherwise")
+		}
+		s.run.Eval(fmt.Sprintf("probe-validate %d %v", bi.No, err == chain.ErrorBlockVerifySign), true)
+	}
 	after := s.committedSnap()
 	if !bytes.Equal(rootBefore, s.sdb.GetRoot()) || !after.equalState(preBlock) {
 		s.fail("C03", "a block state that was never committed changed the state DB", "", "before "+preBlock.dump(z), "after  "+after.dump(z))
